@@ -85,7 +85,7 @@ def exec_PROG(t):
             x = rng.choice(pool)
             y = rng.choice(pool)
             op = rng.choice(['new', 'call', 'setval', 'setitem', 'resize', 'like', 'likekw', 'conv', 'add', 'sub', 'mul', 'div', 'fdiv', 'mod', 'const', 'out', 'outlike',
-                             'neg', 'abs', 'lsh', 'rsh', 'inv', 'and', 'idx', 'sum', 'cumsum', 'max', 'min', 'dot', 'T', 'clip', 'deepcopy'])
+                             'neg', 'abs', 'lsh', 'rsh', 'inv', 'and', 'idx', 'sum', 'cumsum', 'max', 'min', 'dot', 'T', 'clip', 'deepcopy', 'npfunc', 'npfunc'])
             try:
                 if op == 'new':
                     emit(newobj())
@@ -184,7 +184,23 @@ def exec_PROG(t):
                     if x.ndim >= 1 and not x.scaled:
                         emit(np.clip(x, float(x.lower) / 2, float(x.upper) / 2))
                 elif op == 'deepcopy':
-                    emit(x.deepcopy())
+                    emit(rng.choice([lambda: x.deepcopy(), lambda: x.flatten() if x.ndim else x.deepcopy(), lambda: x.T, lambda: fxpmath.fxp_like(x, rand_vals(rng, x.signed, x.n_word, x.n_frac, 1)[0])])())
+                elif op == 'npfunc':
+                    # any other NumPy-dispatched function or method that returns an Fxp (whatever sizing it chooses, the object must be well-formed)
+                    if x.scaled or x.n_word > 24:
+                        continue
+                    cands = [lambda: np.negative(x), lambda: np.abs(x), lambda: np.positive(x), lambda: np.conjugate(x), lambda: x.conjugate()]
+                    if x.ndim >= 1:
+                        cands += [lambda: np.prod(x), lambda: x.prod(), lambda: np.cumprod(x) if x.size <= 4 and x.n_word <= 12 else None, lambda: np.sort(x), lambda: np.mean(x), lambda: x.mean(),
+                                  lambda: np.std(x), lambda: np.var(x), lambda: np.squeeze(x), lambda: np.ravel(x), lambda: np.flip(x), lambda: np.roll(x, 1),
+                                  lambda: np.tile(x, 2), lambda: np.repeat(x, 2), lambda: np.where(np.asarray(x.get_val()) > 0, x, x),
+                                  lambda: np.median(x), lambda: np.round(x), lambda: np.maximum(x, x), lambda: np.minimum(x, 0), lambda: fxpmath.fxp_sum(x), lambda: fxpmath.fxp_max(x), lambda: fxpmath.fxp_min(x)]
+                    if x.ndim == 2:
+                        cands += [lambda: np.trace(x), lambda: x.trace(), lambda: np.diagonal(x), lambda: x.diagonal(), lambda: np.matmul(x, np.transpose(x)) if x.n_word <= 12 else None,
+                                  lambda: np.dot(x, np.transpose(x)) if x.n_word <= 12 else None, lambda: x[:, 0], lambda: x[::-1]]
+                    z = rng.choice(cands)()
+                    if isinstance(z, Fxp):
+                        emit(z)
             except (ValueError, TypeError, ZeroDivisionError, OverflowError) as e:
                 # an operation that raises produces no object (nothing to judge); remember the class for the evidence
                 out.extend([])
